@@ -204,6 +204,39 @@ func invalidTexts(rng *gen.RNG, emit func(text, class string)) {
 	}
 }
 
+// insertedOutsiders: k copies (k = 1..8, 16, 24) of every byte value outside A-Z a-z 2-7 = inserted at interior
+// positions of valid texts (spread out and as one run), for texts of every padding class, padded and unpadded -
+// so that also combinations whose total length looks possible again are presented.
+func insertedOutsiders(rng *gen.RNG, keyLens []int, emit func(text, class string)) {
+	for _, n := range keyLens {
+		key := rng.Bytes(n)
+		for _, valid := range []string{ref.Base32EncodeNoPad(key), ref.Base32Encode(key)} {
+			data := strings.TrimRight(valid, "=")
+			if len(data) < 2 {
+				continue
+			}
+			for b := 0; b < 256; b++ {
+				c := byte(b)
+				if c >= 'A' && c <= 'Z' || c >= 'a' && c <= 'z' || c >= '2' && c <= '7' || c == '=' {
+					continue
+				}
+				for _, k := range []int{1, 2, 3, 4, 5, 6, 7, 8, 16, 24} {
+					// spread: each copy at its own interior position of the data characters
+					t := []byte(data)
+					for i := 0; i < k; i++ {
+						p := 1 + rng.Intn(len(t)-1)
+						t = append(t[:p], append([]byte{c}, t[p:]...)...)
+					}
+					emit(string(t)+valid[len(data):], "character-outside-alphabet")
+					// one run
+					p := 1 + rng.Intn(len(data)-1)
+					emit(data[:p]+strings.Repeat(string([]byte{c}), k)+data[p:]+valid[len(data):], "character-outside-alphabet")
+				}
+			}
+		}
+	}
+}
+
 func c07History(c *Ctx, cases []spellCase) {
 	rng := c.RNG.Fork(77)
 	var valid, invalid []spellCase
@@ -273,6 +306,9 @@ func init() {
 					cases = append(cases, spellCase{Text: text, Class: class})
 				})
 			}
+			insertedOutsiders(rng, []int{2, 5, 10, 1, 3, 4, 20}[:c.N(3, 7)], func(text, class string) {
+				cases = append(cases, spellCase{Text: text, Class: class})
+			})
 			parallelJudge(c, cases, judgeSpell)
 			// sequential history on one goroutine: hot valid spellings repeated byte-identically, interleaved with invalid
 			// texts of every class (a decoder that remembers or reuses anything across calls shows up here)
